@@ -432,7 +432,7 @@ Section SVR.
     assert (Hxv : nth_error xs (r_index v) = Some (r_x v)).
     { assert (Hall : Forall (fun v => nth_error xs (r_index v) = Some (r_x v)) l).
       { eapply Forall2_transfer; [exact Hid | exact Hx0 |]. intros u w [A B] Hu. rewrite A, B. exact Hu. }
-      eapply Forall_forall; eauto. }
+      exact (proj1 (Forall_forall _ _) Hall v Hv). }
     assert (Hlt : (r_index v < length ys)%nat).
     { rewrite <- len_eq. apply nth_error_Some. rewrite Hxv. discriminate. }
     destruct (nth_error ys (r_index v)) as [y|] eqn:Ey; [|apply nth_error_None in Ey; lia].
@@ -451,18 +451,9 @@ Section SVR.
     assert (D3 : 0 < r_a0 v -> y - (- (gmax + gmin) / 2 + f) <= - eps + tol / 2) by (intros T; specialize (C3 T); lra).
     assert (D4 : r_a1 v < c -> y - (- (gmax + gmin) / 2 + f) <= eps + tol / 2) by (intros T; specialize (C4 T); lra).
     clear C1 C2 C3 C4 G0 G1.
-    repeat split; intros Hw.
-    - destruct (Rlt_le_dec (r_a0 v) c) as [L|L]; [specialize (D1 L); lra|].
-      assert (T : 0 < r_a1 v) by lra. specialize (D2 T). lra.
-    - destruct (Rlt_le_dec (r_a1 v) c) as [L|L]; [specialize (D4 L); lra|].
-      assert (T : 0 < r_a0 v) by lra. specialize (D3 T). lra.
-    - assert (T : 0 < r_a1 v) by lra. specialize (D2 T). lra.
-    - destruct (Rlt_le_dec (r_a1 v) c) as [L|L]; [specialize (D4 L); lra|].
-      assert (T : 0 < r_a0 v) by lra. specialize (D3 T). lra.
-    - destruct (Rlt_le_dec (r_a0 v) c) as [L|L]; [specialize (D1 L); lra|].
-      assert (T : 0 < r_a1 v) by lra. specialize (D2 T). lra.
-    - assert (T : 0 < r_a0 v) by lra. specialize (D3 T). lra.
-    - assert (T : 0 < r_a1 v) by lra. specialize (D2 T). lra.
-    - assert (T : 0 < r_a0 v) by lra. specialize (D3 T). lra.
+    split; [intros Hw; split | split; [intros Hw; split | split; [intros Hw; split | split; intros Hw]]];
+      destruct (Rlt_le_dec (r_a0 v) c) as [L1|L1]; destruct (Rlt_le_dec 0 (r_a1 v)) as [L2|L2];
+      destruct (Rlt_le_dec 0 (r_a0 v)) as [L3|L3]; destruct (Rlt_le_dec (r_a1 v) c) as [L4|L4];
+      try specialize (D1 L1); try specialize (D2 L2); try specialize (D3 L3); try specialize (D4 L4); lra.
   Qed.
 End SVR.
